@@ -53,8 +53,11 @@ def run(ctx):
     exhaustion_rule(ctx)
     from .c14 import stats_every_record
     stats_every_record(ctx, "C16.Q")
-    from . import c06
+    from . import c06, c17
     c06.reader_deps(ctx, "C16")
+    c17.writers_rule(ctx, "C16.W")          # an empty input still produces its (empty) output file
+    ctor_total_rule(ctx)
+    subtraction_audit(ctx)
     # empty input on the mmap path: the mapping has length 0, so no unconditional write may touch it
     from . import c05
     fb, fm = ctx.view(c05.BATCH), ctx.view(c05.MMAP)
@@ -185,3 +188,87 @@ def exhaustion_rule(ctx):
         ctx.check("C16.E", "%s:no_len_minus_one" % name, not under, "no `seq.len() - 1` in a path condition",
                   "next() evaluates `seq.len() - 1` in a condition: it underflows for an empty sequence unless dominated "
                   "by the exhaustion test, and re-creates the end-of-sequence special case", line_of(under[0]) if under else None)
+
+
+
+def ctor_total_rule(ctx):
+    """Generator constructors accept every 1 <= m <= w (w == m is produced by the w = 0 clamp): an assertion in
+    `new` is allowed only if it is implied by that precondition."""
+    for which in ("plain", "kmers"):
+        g = minimiser.GENS[which]
+        fv = ctx.need("C16.C", g["new"])
+        if fv is None:
+            continue
+        w, m = ("param", param_index(fv, "wsize")), ("param", param_index(fv, "msize"))
+        implied = {repr(mk_bin("<=", m, w)), repr(mk_bin("<=", L(1), m)), repr(mk_bin("<", L(0), m)),
+                   repr(mk_bin("<=", m, L(31))), repr(mk_bin("<", m, L(32))), repr(mk_bin("<=", L(1), w)),
+                   repr(mk_bin("<", L(0), w))}
+        bad = None
+        for n in fv.nodes:
+            if n.get("k") == "if" and diverges(n["then"]) and n.get("else") is None:
+                c = fv.term(n["cond"])
+                # assert!(X) lowers to `if !X { panic }`
+                x = c[2] if c[0] == "un" and c[1] == "!" else ("un", "!", c)
+                if repr(x) not in implied:
+                    bad = (n, x)
+        ctx.check("C16.C", "%s::new:total" % g["name"], bad is None,
+                  "no assertion in new() beyond the precondition 1 <= m <= w",
+                  "new() asserts `%s`, which is not implied by 1 <= m <= w: the w = 0 mode passes w = max(len, m), so a "
+                  "record of length <= m makes the worker panic" % (show(bad[1]) if bad else ""),
+                  line_of(bad[0]) if bad else None)
+
+
+# every unsigned subtraction of the workspace, keyed by its canonical term, with the reason it cannot underflow
+AUDITED_SUBTRACTIONS = {
+    "(param - 1)": "ksize/msize/wsize >= 1 by the option ranges (C15.R) / documented API precondition",
+    "((param - param) + 1)": "buffer capacity w - m + 1 with m <= w (C10.U, C15.Z)",
+    "(self.len - 1)": "only after len == ksize >= 1",
+    "(self.m_val_l - 1)": "only after m_val_l >= msize >= 1",
+    "(self.k_val_l - 1)": "only after k_val_l == wsize >= 1",
+    "(self.buff_pos - 1)": "only when buff_pos != 0",
+    "(len(self.buff) - 1)": "buffer is full (>= 1 element) on that path",
+    "(self.wsize - self.msize)": "m <= w",
+    "((self.wsize - self.msize) + 1)": "m <= w",
+    "(self.pos - self.wsize)": "a full window has been read: pos >= wsize - 1 (evaluated as pos - wsize + 1)",
+    "((self.pos - self.wsize) + 1)": "a full window has been read: pos + 1 >= wsize",
+    "(self.current_record - 1)": "just incremented",
+    "(self.bin_count - 1)": "bin_count >= 1 (C15.R: >= 5)",
+    "(self.kcount - 1)": "kcount >= 1 (the canonical set is never empty)",
+    "((1 << (2 * param)) - 1)": "mask 4^k - 1, 4^k >= 4",
+    "(param - param)": "w - m with m <= w (first half of w - m + 1)",
+    "(8 - 2)": "constant",
+    "(NUMBER_SIZE - 2)": "constant",
+}
+
+
+def subtraction_audit(ctx):
+    """A: every unsigned subtraction in workspace code is in the audited table above (after replacing parameters by
+    `param`); a new subtraction on runtime sizes (record lengths, counts) is reported because it can underflow on
+    degenerate input."""
+    import re as _re
+    seen = {}
+    for fv in ctx.all_views(lambda f: not f["npath"].startswith(("kmertools::", "<kmertools::", "pykmertools::", "<pybindings::"))
+                            or f["npath"] == "kmertools::args::cli"):
+        if fv.fn.get("mac"):
+            continue
+        for n in fv.nodes:
+            if n.get("mac"):
+                continue
+            if (n.get("k") == "bin" and n.get("op") == "-") or (n.get("k") == "assignop" and n.get("op") == "-="):
+                ty = n["l"].get("ty", "")
+                if ty not in ("u8", "u16", "u32", "u64", "usize", "u128"):
+                    continue
+                t = fv.term(n) if n["k"] == "bin" else mk_bin("-", fv.term(n["l"]), fv.term(n["r"]))
+                if t[0] == "lit":
+                    continue      # constant-folded
+                s_ = _re.sub(r"param#\d+", "param", show(t))
+                seen.setdefault(s_, (fv.path, n))
+    extra = sorted(k for k in seen if k not in AUDITED_SUBTRACTIONS)
+    for k in extra:
+        fp, n = seen[k]
+        ctx.fail("C16.A", "%s:unaudited_subtraction:%s" % (fp, k),
+                 "unsigned subtraction `%s` in %s is not in the audited table: on degenerate input (empty file, records "
+                 "shorter than k, zero counts) it can underflow — panic in debug builds, absurd sizes in release builds"
+                 % (k, fp), line_of(n))
+    ctx.check("C16.A", "subtractions:audited", not extra, "%d distinct unsigned subtraction terms, all audited" % len(seen),
+              "%d unaudited subtraction term(s)" % len(extra), None)
